@@ -6,6 +6,7 @@ import CnfgenModel.Fam.Subgraph
 import Lemmas.FamIso
 namespace Cnfgen
 namespace Fam
+namespace G2
 open Vars
 
 /-! ### the common prefix `complete ++ functional ++ injective` -/
@@ -467,5 +468,6 @@ theorem ramseyEdges_iff {G : SimpleG} (hG : GoodGraph G) {k : Nat} {symbreak : B
       rintro a b ⟨hab, hlt⟩
       exact ⟨fun _ => hab.symm, fun h' => by omega⟩
 
+end G2
 end Fam
 end Cnfgen
